@@ -43,7 +43,7 @@ C19_capacity(e, f, o) ==
   /\ \A t \in DOMAIN f.member : Cardinality(f.member[t]) - Pend(f, t) <= f.r.max
 C19_noEarlyTable(e, f, o) == \A k \in 1..Len(o.calls) : o.calls[k].kind = "request" =>
   /\ f.r.status # Pending
-  /\ (e.r.tc = 0 => Cardinality(Live(f)) >= f.r.min)
+  /\ (e.r.tc = 0 => Cardinality(f.reg) >= f.r.min)      \* "registered", as the statement says (not: still alive)
 \* every table opened by the allocation that starts from zero tables gets at least the minimum
 C19_initialMin(e, f, o) == \A k \in 1..Len(o.calls) :
   (o.calls[k].kind = "request" /\ e.r.tc = 0) => Len(o.calls[k].players) >= f.r.min
